@@ -62,7 +62,7 @@ inductive SubStep (sys : Sys K T R) (rq : Req K T R) (sh : Shared K V T R) (b : 
                  since := if b.registered then b.since else sh.keys.filter sh.present,
                  pc := if sys.swap = true ∧ rq.mode = .stream then .reg else .run }
   | visit (k : K) (todo vis : List K) : b.walker = .walking todo vis → b.status = none →
-      rq.updatesOnly = false → sh.present k = true → rq.walks k = true → k ∉ vis →
+      rq.updatesOnly = false → sh.present k = true → rq.walks k = true → vis.count k ≤ rq.extra k →
       SubStep sys rq sh b (.visit k)
         { b.ins (.handle k (sh.gen k)) with walker := .walking (todo.filter (· ≠ k)) (k :: vis) }
   | finish (vis : List K) : b.walker = .walking [] vis → b.status = none →
@@ -256,6 +256,21 @@ end
 
 section
 variable {K V T R : Type} [DecidableEq K] [DecidableEq R] [DecidableEq T] [Inhabited V]
+
+/-- within one walk a key is visited at most once per matching subscription path -/
+theorem visit_beyond_extra {K V T R : Type} [DecidableEq K] [DecidableEq R] (sys : Sys K T R) (rq : Req K T R)
+    (sh : Shared K V T R) (b : Sub K V R) (k : K) (todo vis : List K)
+    (hw : b.walker = .walking todo vis) (hk : rq.extra k < vis.count k) :
+    subFire sys rq sh b (.visit k) = none := by
+  simp only [subFire, hw]
+  rw [if_neg]
+  rintro ⟨_, _, _, _, h⟩
+  omega
+
+/-- a key not visited yet may be visited (whatever `Req.extra` says) -/
+theorem count_le_extra_of_not_mem {α : Type} [DecidableEq α] {a : α} {l : List α} (h : a ∉ l) (n : Nat) :
+    l.count a ≤ n := by
+  rw [List.count_eq_zero_of_not_mem h]; exact Nat.zero_le _
 
 theorem setFn_same {α β : Type} [DecidableEq α] (f : α → β) (a : α) (b : β) : setFn f a b a = b := by
   simp [setFn]
